@@ -3,8 +3,8 @@
    Numbers are exact canonical rationals Qc (every int and finite binary64 is one); None / MNan = NaN;
    MOut = the input left the model (an infinity, or a cell the column type cannot hold). *)
 From Coq Require Import ZArith QArith Qcanon List Bool String Permutation.
-From DM Require Import Base.PyVal Base.QcPy Spec.Nf Spec.Stats Gen.KCheck Gen.KStats Model.Stats
-  Proofs.StatsFacts Proofs.StatsRefine Proofs.StatsX.
+From DM Require Import Base.PyVal Base.QcPy Spec.Nf Spec.Stats Gen.KCheck Gen.KStats Model.Stats Model.StatsOp
+  Proofs.StatsFacts Proofs.StatsRefine Proofs.StatsX Proofs.StatsOpFacts.
 Import ListNotations.
 Open Scope Qc_scope.
 
@@ -238,6 +238,42 @@ Theorem C12_x_unique_model :
     forall x, In x (umodel_list (xl1_unique k cells)) <-> In x (xkeys cells).
 Proof. exact (fun k cells => conj (xl1_unique_nodup k cells) (xl1_unique_complete k cells)). Qed.
 Print Assumptions C12_x_unique_model.
+
+(* ---- the result column of an operator on an IntColumn, read before it is assigned anywhere (Model/StatsOp.v):
+   the NumPy statistics reduce the buffer `_seq`, the cells are read through int(_seq[i]).  With the cast of
+   IntColumn._operate (`.astype(self.dtype)`, pinned) the statistics of the result object are those of its cells --
+   for ANY buffer the operator produced (e.g. the float64 quotients of the reflected true division `7 / col`) -- hence,
+   by C12_l1_refines_l0, the textbook ones; and those of a fresh IntColumn holding these cells. *)
+Theorem C12_int_operator_result_statistics_are_those_of_its_cells :
+  forall s buf, buf_stat s (int_cast buf) = i_stat s (int_cells buf).
+Proof. exact int_result_stat. Qed.
+Print Assumptions C12_int_operator_result_statistics_are_those_of_its_cells.
+
+Theorem C12_int_operator_result_agrees_with_fresh_column :
+  forall s buf, buf_stat s (int_cast buf) = l1_stat KInt s (map VInt (int_cells buf)).
+Proof. exact int_result_as_fresh_column. Qed.
+Print Assumptions C12_int_operator_result_agrees_with_fresh_column.
+
+(* the cast changes no cell, and nothing at all in a buffer of whole numbers *)
+Theorem C12_int_cast_keeps_the_cells :
+  forall buf, int_cells (int_cast buf) = int_cells buf.
+Proof. exact int_cells_cast. Qed.
+Print Assumptions C12_int_cast_keeps_the_cells.
+
+Theorem C12_int_cast_whole_buffer_unchanged :
+  forall zs, int_cast (map qz zs) = map qz zs.
+Proof. exact int_cast_whole. Qed.
+Print Assumptions C12_int_cast_whole_buffer_unchanged.
+
+(* the cast is needed: 7 / IntColumn([2, 4, 3, -6, 12]) has the quotients 7/2 7/4 7/3 -7/6 7/12 in its buffer and the
+   cells 3 1 2 -1 0; without the cast mean = 7/5, with it (and for the cells) mean = 1 *)
+Example C12_example_reflected_division :
+  let buf := [qc 7 2; qc 7 4; qc 7 3; qc (-7) 6; qc 7 12] in
+  int_cells buf = [3; 1; 2; -1; 0]%Z /\
+  mres_eqb (buf_stat Mean buf) (MVal (qc 7 5)) = true /\
+  mres_eqb (i_stat Mean (int_cells buf)) (MVal (qz 1)) = true /\
+  mres_eqb (buf_stat Mean (int_cast buf)) (MVal (qz 1)) = true.
+Proof. repeat split; vm_compute; reflexivity. Qed.
 
 (* ---- non-vacuity (mres_eqb a b = true <-> a = b) ------------------------------------------------------------ *)
 Theorem C12_mres_eqb_eq : forall a b, mres_eqb a b = true <-> a = b.
